@@ -335,48 +335,39 @@ theorem concatHead_slice_unfold (lens : List Nat) (a b c : Option Int) :
     concatHead lens (.slice a b c) =
       (match sliceIndices (total lens) a b c with
       | none => .error .value
-      | some (s, e, st) =>
+      | some (s, e0, st) =>
+        let e : Int := if st > 0 then max e0 s else e0
         let inds := rangeList (findIndexer (partStarts lens) s) (findIndexer (partStarts lens) e + 1) 1
         if inds.isEmpty then .error .value
         else do
           let chunks ← inds.mapM (sliceChunk lens s e st)
           pure (false, chunks.flatten)) := rfl
 
-/-- **Concatenated indexer, positive-step slice head index**, whenever the part holding the start
-    is not after the part holding the stop -/
-theorem concatHead_slice_ord (lens : List Nat) (a b c : Option Int) (hc : c.getD 1 > 0)
-    (s e st : Int) (hi : sliceIndices (total lens) a b c = some (s, e, st)) (hlens : lens ≠ [])
-    (hord : findIndexer (partStarts lens) s ≤ findIndexer (partStarts lens) e) :
-    concatHead lens (.slice a b c) = concatSpec lens (.slice a b c) := by
-  obtain ⟨hst0, hp, _⟩ := sliceIndices_bounds hi
-  have hst : st = c.getD 1 := by
-    unfold sliceIndices at hi
-    simp only at hi
-    split at hi
-    · simp at hi
-    · simp only [Option.some.injEq, Prod.mk.injEq] at hi; exact hi.2.2.symm
-  have hpos : 0 < st := by omega
-  obtain ⟨hs0, hsn, he0, hen⟩ := hp hpos
-  obtain ⟨sN, rfl⟩ := Int.eq_ofNat_of_zero_le hs0
-  obtain ⟨eN, rfl⟩ := Int.eq_ofNat_of_zero_le he0
-  obtain ⟨ps, h2, h3, h4, _⟩ := findIndexer_stop lens hlens sN (by omega)
-  obtain ⟨pe, hpe1, hpe2, hpe3, hpe4⟩ := findIndexer_stop lens hlens eN (by omega)
+/-- the slice branch once start/stop are known, whenever the part holding the start is not after
+    the part holding the stop -/
+theorem sliceBody_spec (lens : List Nat) (sN eN : Nat) (st : Int) (hpos : 0 < st)
+    (hsn : sN ≤ total lens) (hen : eN ≤ total lens) (hlens : lens ≠ [])
+    (hord : findIndexer (partStarts lens) (sN : Int) ≤ findIndexer (partStarts lens) (eN : Int)) :
+    (if (rangeList (findIndexer (partStarts lens) (sN : Int)) (findIndexer (partStarts lens) (eN : Int) + 1) 1).isEmpty
+      then (.error .value : Except Err (Bool × List (Nat × Nat)))
+      else do
+        let chunks ← (rangeList (findIndexer (partStarts lens) (sN : Int))
+          (findIndexer (partStarts lens) (eN : Int) + 1) 1).mapM (sliceChunk lens sN eN st)
+        pure (false, chunks.flatten)) =
+    (match ((rangeList (sN : Int) (eN : Int) st).map Int.toNat).mapM (locateF lens) with
+     | .error err => .error err
+     | .ok r => .ok (false, r)) := by
+  obtain ⟨ps, h2, h3, h4, _⟩ := findIndexer_stop lens hlens sN hsn
+  obtain ⟨pe, hpe1, hpe2, hpe3, hpe4⟩ := findIndexer_stop lens hlens eN hen
   have hle : ps ≤ pe := by rw [h2, hpe1] at hord; omega
   obtain ⟨chunks, hc1, hc2⟩ := sliceLoop lens (sN : Int) (eN : Int) st hpos pe hpe2 (by omega) (by omega)
     (pe + 1 - ps) ps (by omega)
   rw [nextGE_of_ge (by omega)] at hc2
-  -- implementation side
-  rw [concatHead_slice_unfold, hi]
   simp only [h2, hpe1]
   have hcons : rangeList (ps : Int) ((pe : Int) + 1) 1 = (ps : Int) :: rangeList ((ps : Int) + 1) ((pe : Int) + 1) 1 :=
     rangeList_unit_cons (by omega)
   have hnotempty : (rangeList (ps : Int) ((pe : Int) + 1) 1).isEmpty = false := by rw [hcons]; rfl
-  rw [hnotempty, hc1]
-  -- specification side
-  simp only [concatSpec, Ix.resolve, sliceList, hi, Option.map, bind, Except.bind]
-  generalize hX : List.mapM (m := Except Err) _ (List.map Int.toNat (rangeList (sN : Int) (eN : Int) st)) = X
-  have hX2 : X = .ok chunks.flatten := hX.symm.trans hc2
-  rw [hX2]
+  rw [hnotempty, hc1, hc2]
   rfl
 
 /-- `find_indexer` is monotone on `[0, total]` -/
@@ -389,30 +380,52 @@ theorem findIndexer_mono (lens : List Nat) (hlens : lens ≠ []) (x y : Nat) (hx
   · omega
   · exfalso
     have := total_take_mono lens (py + 1) px (by omega)
-    -- x ≥ total(take px) ≥ total(take (py+1)) ≥ y ≥ x: all equal, so `x = y`
     have hxy' : x = y := by omega
     subst hxy'
     rw [h1] at g1
     omega
 
-/-- **Concatenated indexer, positive-step slice head index, non-empty selection** -/
-theorem concatHead_slice (lens : List Nat) (a b c : Option Int) (hc : c.getD 1 > 0)
-    (s e st : Int) (hi : sliceIndices (total lens) a b c = some (s, e, st)) (hne : s < e) :
+/-- **Concatenated indexer, positive-step slice head index**: every start/stop/stride (negative,
+    `None`, out of range, empty selections included), every number and size of parts (at least one
+    part; empty parts allowed) -/
+theorem concatHead_slice (lens : List Nat) (hlens : lens ≠ []) (a b c : Option Int) (hc : c.getD 1 > 0) :
     concatHead lens (.slice a b c) = concatSpec lens (.slice a b c) := by
-  obtain ⟨hst0, hp, _⟩ := sliceIndices_bounds hi
-  have hst : st = c.getD 1 := by
-    unfold sliceIndices at hi
-    simp only at hi
-    split at hi
-    · simp at hi
-    · simp only [Option.some.injEq, Prod.mk.injEq] at hi; exact hi.2.2.symm
-  have hpos : 0 < st := by omega
-  obtain ⟨hs0, hsn, he0, hen⟩ := hp hpos
-  have hlens : lens ≠ [] := by
-    intro h; subst h; simp [total] at hen hsn; omega
-  refine concatHead_slice_ord lens a b c hc s e st hi hlens ?_
-  obtain ⟨sN, rfl⟩ := Int.eq_ofNat_of_zero_le hs0
-  obtain ⟨eN, rfl⟩ := Int.eq_ofNat_of_zero_le he0
-  exact findIndexer_mono lens hlens sN eN (by omega) (by omega)
+  cases hi : sliceIndices (total lens) a b c with
+  | none =>
+    rw [concatHead_slice_unfold, hi]
+    simp [concatSpec, Ix.resolve, sliceList, hi, bind, Except.bind]
+  | some t =>
+    obtain ⟨s, e, st⟩ := t
+    obtain ⟨hst0, hp, _⟩ := sliceIndices_bounds hi
+    have hst : st = c.getD 1 := by
+      unfold sliceIndices at hi
+      simp only at hi
+      split at hi
+      · simp at hi
+      · simp only [Option.some.injEq, Prod.mk.injEq] at hi; exact hi.2.2.symm
+    have hpos : 0 < st := by omega
+    obtain ⟨hs0, hsn, he0, hen⟩ := hp hpos
+    obtain ⟨sN, rfl⟩ := Int.eq_ofNat_of_zero_le hs0
+    obtain ⟨eN, rfl⟩ := Int.eq_ofNat_of_zero_le he0
+    -- the stop actually used: max(stop, start)
+    have hmax : (if st > 0 then max (eN : Int) (sN : Int) else (eN : Int)) = ((max eN sN : Nat) : Int) := by
+      rw [if_pos hpos]; omega
+    have hbody := sliceBody_spec lens sN (max eN sN) st hpos (by omega) (by omega) hlens
+      (findIndexer_mono lens hlens sN (max eN sN) (by omega) (by omega))
+    rw [concatHead_slice_unfold, hi]
+    simp only [hmax]
+    rw [hbody]
+    -- the spec side: range(start, max(stop, start)) = range(start, stop)
+    have hrange : rangeList (sN : Int) ((max eN sN : Nat) : Int) st = rangeList (sN : Int) (eN : Int) st := by
+      by_cases h : sN < eN
+      · rw [show max eN sN = eN by omega]
+      · rw [rangeList_pos_nil hpos (by omega), rangeList_pos_nil hpos (by omega)]
+    rw [hrange]
+    generalize hY : List.mapM (locateF lens) (List.map Int.toNat (rangeList (sN : Int) (eN : Int) st)) = Y
+    simp only [concatSpec, Ix.resolve, sliceList, hi, Option.map, bind, Except.bind]
+    generalize hX : List.mapM (m := Except Err) _ (List.map Int.toNat (rangeList (sN : Int) (eN : Int) st)) = X
+    have hXY : X = Y := hX.symm.trans hY
+    rw [hXY]
+    cases Y <;> rfl
 
 end LazyIx
